@@ -541,9 +541,15 @@ func (s *Sim) Run(finished func() bool, drain time.Duration) {
 			sleepers := s.sleepers
 			s.mu.Unlock()
 			if sleepers > 0 {
-				// a harness sleeper with a finite deadline will park later
+				// a harness sleeper with a finite deadline will park later (or, if its incarnation was killed
+				// meanwhile, end without a word: hence a timed wait)
 				idleSince = time.Time{}
-				<-s.wake
+				tm := time.NewTimer(time.Hour)
+				select {
+				case <-s.wake:
+				case <-tm.C:
+				}
+				tm.Stop()
 				continue
 			}
 			if idleSince.IsZero() {
